@@ -327,6 +327,10 @@ type c05Gen struct {
 	keys  []string          // keys of state in insertion order
 	ref   map[string][]byte // content at the last `gen`
 	ops   []string
+	// wild: the proof may hold an item that is not a node encoding (flipped node, raw value, value
+	// held by hash): such an item is never made the root (decoding arbitrary bytes can ask for a
+	// byte slice of up to 4 GiB, which pkg/scale allocates)
+	wild bool
 }
 
 func (g *c05Gen) poolKey() []byte { return g.pool[g.r.Intn(len(g.pool))] }
@@ -372,25 +376,37 @@ func (g *c05Gen) put(k, v []byte) {
 		g.keys = append(g.keys, string(k))
 	}
 	g.state[string(k)] = v
+	if len(v) > 32 {
+		g.wild = true
+	}
 	g.ops = append(g.ops, "put "+vhHex(k)+" "+vhHex(v))
 }
 
-func (g *c05Gen) keyList(n int) string {
+// keyList: n keys for Generate; presentOnly = only keys of the current state
+func (g *c05Gen) keyList(n int, presentOnly bool) (list string, allPresent bool) {
 	if n == 0 {
-		return "_"
+		return "_", true
 	}
+	allPresent = true
 	parts := make([]string, n)
 	for i := range parts {
-		parts[i] = vhHex(g.queryKey())
+		k, ok := g.presentKey()
+		if !ok || (!presentOnly && g.r.Chance(1, 12)) {
+			k = g.queryKey()
+		}
+		if _, in := g.state[string(k)]; !in {
+			allPresent = false
+		}
+		parts[i] = vhHex(k)
 	}
-	return strings.Join(parts, ",")
+	return strings.Join(parts, ","), allPresent
 }
 
 // a value to claim for k under the reference state
 func (g *c05Gen) claim(k []byte) []byte {
 	r := g.r
 	tv, present := g.ref[string(k)]
-	switch r.Intn(12) {
+	switch r.Intn(16) {
 	case 0:
 		return []byte{}
 	case 1:
@@ -432,11 +448,12 @@ func (g *c05Gen) edit() {
 	case 3:
 		g.ops = append(g.ops, fmt.Sprintf("dup %d %d", r.Intn(8), r.Intn(9)))
 	case 4, 5:
+		g.wild = true
 		g.ops = append(g.ops, fmt.Sprintf("flip %d %d %02x", r.Intn(8), r.Intn(80), 1<<uint(r.Intn(8))))
 	case 6:
 		g.ops = append(g.ops, fmt.Sprintf("rot %d", 1+r.Intn(5)))
 	case 7:
-		raws := []string{"00", "-", "01", "4000", "41000400", "8000", "c10000" + "04ff", "03"}
+		raws := []string{"00", "-", "01", "4000", "41000400", "8000", "c10000" + "04ff", "03", "41", "800100", "c0000000"}
 		op := "raw "
 		if r.Bool() {
 			op = "rawf "
@@ -445,7 +462,25 @@ func (g *c05Gen) edit() {
 	case 8:
 		// a proof item that is the value of some key (what a hashed value needs)
 		if k, ok := g.presentKey(); ok {
+			g.wild = true
 			g.ops = append(g.ops, "raw "+vhHex(g.state[k2s(k)]))
+		}
+	case 9:
+		// a root chosen by the prover whose child reference resolves to a crafted item:
+		// branch (no partial key, child 0 or 5 by hash) over `item`
+		items := []string{"00", "03", "41", "4000", "410004" + "07", "4200" + "00", "8000", "800100"}
+		item := vhUnhex(items[r.Intn(len(items))])
+		h := common.MustBlake2bHash(item)
+		bitmap := []byte{0x01, 0x00}
+		if r.Bool() {
+			bitmap = []byte{0x20, 0x00}
+		}
+		parent := append(append([]byte{0x80}, bitmap...), 0x80)
+		parent = append(parent, h[:]...)
+		g.ops = append(g.ops, "raw "+vhHex(item), "rawf "+vhHex(parent), "rootx 0")
+		for i := 0; i < 2; i++ {
+			k := [][]byte{{}, {0x00}, {0x07}, {0x50}, {0x57}, {0x00, 0x00}}[r.Intn(6)]
+			g.ops = append(g.ops, "ver "+vhHex(k)+" "+vhHex([][]byte{{}, {0x07}, {0x01}}[r.Intn(3)]))
 		}
 	default:
 		// nodes of a different trie: change the state, generate again and splice
@@ -456,7 +491,8 @@ func (g *c05Gen) edit() {
 			}
 			g.put(k, c05Value(r))
 		}
-		g.ops = append(g.ops, "genx "+g.keyList(1+r.Intn(2)))
+		kl, _ := g.keyList(1+r.Intn(2), false)
+		g.ops = append(g.ops, "genx "+kl)
 	}
 }
 
@@ -499,11 +535,12 @@ func c05GenCase(r *vhRng) string {
 		g.put(g.poolKey(), c05Value(r))
 	}
 	// the honest proof
-	g.ops = append(g.ops, "gen "+g.keyList(r.Pick(1, 1, 1, 2, 2, 3, 0)))
+	kl, allPresent := g.keyList(r.Pick(1, 1, 1, 2, 2, 3, 3, 0), false)
+	g.ops = append(g.ops, "gen "+kl)
 	for k, v := range g.state {
 		g.ref[k] = v
 	}
-	genKeys := strings.Split(strings.TrimPrefix(g.ops[len(g.ops)-1], "gen "), ",")
+	genKeys := strings.Split(kl, ",")
 	verify := func(n int) {
 		for i := 0; i < n; i++ {
 			var k []byte
@@ -516,10 +553,17 @@ func c05GenCase(r *vhRng) string {
 		}
 	}
 	verify(1 + r.Intn(2))
+	if !allPresent && len(g.keys) > 0 {
+		// Generate has (most probably) failed on the absent key: go on with a proof of present keys
+		kl, _ = g.keyList(r.Pick(1, 1, 2, 3), true)
+		g.ops = append(g.ops, "gen "+kl)
+		genKeys = strings.Split(kl, ",")
+		verify(1 + r.Intn(2))
+	}
 	// adversarial edits, each followed by verifications
 	for e := r.Pick(0, 1, 1, 2, 3); e > 0; e-- {
 		g.edit()
-		if r.Chance(1, 12) {
+		if !g.wild && r.Chance(1, 8) {
 			g.ops = append(g.ops, fmt.Sprintf("rootx %d", r.Intn(8)))
 		}
 		verify(1 + r.Intn(2))
